@@ -2379,6 +2379,28 @@ Example ex_negative_text_full_width :
 Proof. repeat split; vm_compute; reflexivity. Qed.
 
 (* ------------------------------------------------------------------ *)
+(** * IOArg.Set on a caller-supplied destination *)
+
+(* every previous content of the destination (nil, zero, all ones, an earlier
+   encoding), every argument (ill-formed included), every input list: Set on
+   the reused destination is Set on a fresh one — value, error or panic alike *)
+Lemma set_into_ignores_prev SI prev io inputs : set_into_gen SI prev io inputs = set_gen SI io inputs.
+Proof. destruct prev; reflexivity. Qed.
+
+Lemma set_into_now_ignores_prev prev io inputs : set_into prev io inputs = set io inputs.
+Proof. apply set_into_ignores_prev. Qed.
+
+(* the history of the seeded defect C13-7: uint16, [4]byte; first the full array
+   a1 a2 a3 44, then the short array [44] on the same destination *)
+Example ex_set_history :
+  let arg := IOArg (info_of (TyStruct [TyUint 16; TyArray (TyUint 8) 4]))
+                   (map leaf_arg [TyUint 16; TyArray (TyUint 8) 4]) in
+  set_into None arg [GInt 45107; GBytes [161; 162; 163; 68]%N] = Ok 75469598863411 /\
+  set_into (Some 75469598863411) arg [GInt 45107; GBytes [68]%N] = Ok 4501555 /\
+  set arg [GInt 45107; GBytes [68]%N] = Ok 4501555.
+Proof. repeat split; vm_compute; reflexivity. Qed.
+
+(* ------------------------------------------------------------------ *)
 (** * The string constants of the model are the Go literals *)
 Module StrConst.
 Import String Ascii.
